@@ -3,6 +3,12 @@
     ElementRaw::calc_element_insert_range          (elementraw.rs)  the insertion range from sequence / choice / bag groups
     ElementRaw::create_sub_element(_at / _inner)   (elementraw.rs)  "created at position p exactly when p lies in the range"
     ElementRaw::create_named_sub_element(_at), create_copied_sub_element_at: the position test only (their _inner functions are leaves)
+    ElementRaw::remove_sub_element                 (elementraw.rs)  only a child is removed, never the SHORT-NAME of an identifiable element;
+                                                                    exactly the first entry holding the handle goes, the rest keeps its order
+    Element::insert_character_content_item, remove_character_content_item (element.rs)  Ok only for Mixed content and a position inside the
+                                                                    content (removal: holding a character item, never a sub-element); exactly that item is
+                                                                    inserted / removed, a refused call changes nothing
+    ElementRaw::move_element_position, Element::list_valid_sub_elements, ElementRaw::sort (unit sortnode)
 
 The element graph (Arc<RwLock<..>>, SmallVec, HashSet) is out of the verifier's reach, so the *node* is modelled by what these functions
 read: ElementRaw { elemname, elemtype, content } with `content` a Vec of ElementContent; a child Element is an opaque handle whose
@@ -50,6 +56,10 @@ Rules R39: `AutosarDataError::Variant { .. }` / `AutosarDataError::InvalidPositi
 `for (idx, x) in self.content.iter().enumerate() {` -> index loop (R18); `A.cmp(&B)` on index lists -> vx_lex_cmp(&A, &B);
 `A == B` on index lists -> vx_vec_eq; `&V` passed as slice -> V.as_slice(); `E.ok_or(ERR)?` -> match with early return;
 the `ElementRaw { .. }.wrap()` literal -> leaf vx_new_element; `unreachable!(); // ...` kept.
+R55 (remove_sub_element): `Cow::from(self.path_unchecked()?)` -> opaque path; the child's write guard is dropped, its `elemname` is read through
+element_name(); `.iter().position(closure).ok_or(ERR)?` -> verified helper vx_position_of + early return; the recursive un-registration
+`remove_internal` is a leaf (hash maps, locks).  R56 (character items): `let mut element = self.0.write();` -> the node behind the write guard
+is a `&mut ElementRaw` parameter of the unit's function; `CharacterData::String(chardata.to_owned())` -> leaf vx_string_value.
 """
 import copy
 import os
@@ -305,6 +315,31 @@ pub open spec fn entry_ok(x: ValidSubElementInfo, n: ElementRaw, v: u32) -> bool
     &&& x.is_allowed <==> exists|a: usize, b: usize| n.calc_post(x.element_name, v, Ok((a, b)))
 }
 
+// ---- character items of mixed content
+pub uninterp spec fn cd_string(s: Seq<char>) -> CharacterData;
+// `CharacterData::String(chardata.to_owned())`
+#[verifier::external_body]
+pub fn vx_string_value(s: &str) -> (r: CharacterData) ensures r == cd_string(s@) { unimplemented!() }
+impl ElementRaw {
+    #[verifier::external_body]
+    pub fn element_name(&self) -> (r: ElementName) ensures r == self.elemname { unimplemented!() }
+}
+pub fn vx_mode_of(e: &ElementRaw) -> (r: ContentMode)
+    requires e.elemtype.typ < n_dt(), wf_tables()
+    ensures r == t_dt(e.elemtype.typ as int).mode
+{ e.elemtype.content_mode() }
+// ---- removing a child
+pub struct VxPath { pub opaque: u64 }
+impl ElementRaw {
+    #[verifier::external_body]
+    pub fn path_unchecked(&self) -> (r: Result<VxPath, AutosarDataError>) { unimplemented!() }
+}
+impl Element {
+    // `sub_element.0.write().remove_internal(sub_element.downgrade(), model, path)`: unregisters everything below the removed child from the
+    // model's indexes and clears it (hash maps, recursion over the subtree through write locks): graph code, not modelled
+    #[verifier::external_body]
+    pub fn vx_remove_internal(&self, model: &AutosarModel, path: VxPath) { unimplemented!() }
+}
 // ---- moving a child inside its parent
 // `self.content.iter().position(|item| matches Element(e) && *e == *move_element)`: first position holding this handle
 pub fn vx_position_of(c: &Vec<ElementContent>, h: &Element) -> (r: Option<usize>)
@@ -450,6 +485,26 @@ R47 = [
     (r'for \(_, elem\) in sorting_vec \{', lambda m: 'let mut vx_s: usize = 0; while vx_s < sorting_vec.len() { let elem = sorting_vec[vx_s].1; vx_s += 1;', 'R47'),
 ]
 MOVEPOS = (r'let current_position = self\s*\.content\s*\.iter\(\)\s*\.position\(\|item\| \{\s*if let ElementContent::Element\(elem\) = item \{\s*\*elem == \*move_element\s*\} else \{\s*false\s*\}\s*\}\)\s*\.unwrap\(\);')
+REMPOS = (r'let pos = self\s*\.content\s*\.iter\(\)\s*\.position\(\|item\| \{\s*if let ElementContent::Element\(elem\) = item \{\s*\*elem == sub_element\s*\} else \{\s*false\s*\}\s*\}\)\s*\.ok_or\(AutosarDataError::VxOther\(0\)\)\?;')
+R55 = [
+    (r'AutosarDataError::\w+ \{[^{}]*\}', lambda m: 'AutosarDataError::VxOther(0)', 'R39'),
+    (r'AutosarDataError::ShortNameRemovalForbidden\b', lambda m: 'AutosarDataError::VxOther(0)', 'R39'),
+    (r'let path = Cow::from\(self\.path_unchecked\(\)\?\);', lambda m: 'let path = self.path_unchecked()?;', 'R55'),
+    (r'let mut sub_element_locked = sub_element\.0\.write\(\);', lambda m: '', 'R55'),
+    (REMPOS, lambda m: 'let pos = match vx_position_of(&self.content, &sub_element) { Some(vx_p) => vx_p, None => { return Err(AutosarDataError::VxOther(0)); } };', 'R55'),
+    (r'sub_element_locked\.elemname', lambda m: 'sub_element.element_name()', 'R55'),
+    (r'sub_element_locked\.remove_internal\(sub_element\.downgrade\(\), model, path\);', lambda m: 'sub_element.vx_remove_internal(model, path);', 'R55'),
+]
+# R56: `let mut element = self.0.write();` -- the node behind the write guard is a `&mut ElementRaw` parameter of the unit's function
+R56 = [
+    (r'AutosarDataError::\w+ \{[^{}]*\}', lambda m: 'AutosarDataError::VxOther(0)', 'R39'),
+    (r'AutosarDataError::InvalidPosition\b', lambda m: 'AutosarDataError::VxOther(0)', 'R39'),
+    (r'let mut element = self\.0\.write\(\);', lambda m: '', 'R56'),
+    (r'CharacterData::String\(chardata\.to_owned\(\)\)', lambda m: 'vx_string_value(chardata)', 'R56'),
+    (r'if let ContentMode::Mixed = element\.elemtype\.content_mode\(\) \{', lambda m: 'if let ContentMode::Mixed = vx_mode_of(element) {', 'R56'),
+    (r'if let ElementContent::CharacterData\(_\) = element\.content\[position\] \{', lambda m: 'if let ElementContent::CharacterData(_) = &element.content[position] {', 'R56'),
+]
+SIG56 = [(r'\(&self, ', '(&self, element: &mut ElementRaw, ')]
 R50 = [
     (r'AutosarDataError::InvalidPosition\b', lambda m: 'AutosarDataError::VxOther(0)', 'R39'),
     (MOVEPOS, lambda m: 'let current_position = vx_position_of(&self.content, move_element).unwrap();', 'R50'),
@@ -465,7 +520,7 @@ R46 = [
      lambda m: 'let mut vx_it = etype.sub_element_spec_iter(); loop { let (element_name, vx_et, version_mask, named_mask) = match vx_it.next() { Some(vx_x) => vx_x, None => { break; } };', 'R44'),
 ]
 
-LEAVES = ['is_ordered', 'sub_element_spec_iter', 'SubelemDefinitionsIter.next', 'compatible', 'is_named_in_version', 'find_sub_element', 'find_common_group', 'ElementType.content_mode', 'GroupType.content_mode', 'get_sub_element_multiplicity']
+LEAVES = ['is_ordered', 'sub_element_spec_iter', 'SubelemDefinitionsIter.next', 'compatible', 'is_named_in_version', 'find_sub_element', 'find_common_group', 'ElementType.content_mode', 'GroupType.content_mode', 'get_sub_element_multiplicity', 'is_named', 'short_name_version_mask']
 
 V = 'version as u32'
 UNIQ = '''proof {
@@ -582,6 +637,16 @@ pub struct AutosarModel { pub opaque: u64 }
                            'final(self).elemname == old(self).elemname && final(self).elemtype == old(self).elemtype',
                            'match r { Ok(e) => exists|a: usize, b: usize| old(self).calc_post(name_of(*other), %s, Ok((a, b))) && a <= position <= b && final(self).content@ == old(self).content@.insert(position as int, ElementContent::Element(e)), Err(_) => final(self).content@ == old(self).content@ }' % V],
                   proofs=[dict(after=r'let \(start_pos, end_pos\) = self\.calc_element_insert_range\(other_elemname, version\)\?;', text=UNIQ % ('other_elemname', 'other_elemname'))]),
+           FnSpec('remove_sub_element', F, impl=IMPL_R, ret='r', body_sub=R55, requires=['old(self).elemtype.typ < n_dt()'],
+                  ensures=['final(self).elemname == old(self).elemname && final(self).elemtype == old(self).elemtype',
+                           # a refused removal changes nothing; only a child of this element can be removed; the SHORT-NAME of an identifiable element cannot
+                           'r is Err ==> final(self).content@ == old(self).content@',
+                           '(forall|k: int| 0 <= k < old(self).content@.len() ==> #[trigger] old(self).content@[k] != ElementContent::Element(sub_element)) ==> r is Err',
+                           '(sn_mask(old(self).elemtype.typ as int) is Some && name_of(sub_element) == ElementName::ShortName) ==> r is Err',
+                           # success: exactly the first entry holding this handle is taken out, everything else keeps its order
+                           'r is Ok ==> exists|pos: int| 0 <= pos < old(self).content@.len() && old(self).content@[pos] == ElementContent::Element(sub_element) '
+                           '&& (forall|k: int| 0 <= k < pos ==> #[trigger] old(self).content@[k] != ElementContent::Element(sub_element)) && final(self).content@ == old(self).content@.remove(pos)'],
+                  proofs=[dict(at='body_start', text='proof { axiom_tables(); }')]),
            FnSpec('move_element_position', F, impl=IMPL_R, ret='r', body_sub=R50,
                   requires=['exists|i: int| 0 <= i < old(self).content@.len() && #[trigger] old(self).content@[i] == ElementContent::Element(*move_element)'],
                   ensures=['final(self).elemname == old(self).elemname && final(self).elemtype == old(self).elemtype',
@@ -626,6 +691,18 @@ proof {
     }
 }'''),
                           ]),
+           FnSpec('insert_character_content_item', F_E, impl=IMPL_E, ret='r', body_sub=R56, sig_sub=SIG56, requires=['old(element).elemtype.typ < n_dt()'],
+                  ensures=['final(element).elemname == old(element).elemname && final(element).elemtype == old(element).elemtype',
+                           'r is Ok ==> t_dt(old(element).elemtype.typ as int).mode == ContentMode::Mixed && position <= old(element).content@.len()',
+                           'r is Ok ==> final(element).content@ == old(element).content@.insert(position as int, ElementContent::CharacterData(cd_string(chardata@)))',
+                           'r is Err ==> final(element).content@ == old(element).content@'],
+                  proofs=[dict(at='body_start', text='proof { axiom_tables(); }')]),
+           FnSpec('remove_character_content_item', F_E, impl=IMPL_E, ret='r', body_sub=R56, sig_sub=SIG56, requires=['old(element).elemtype.typ < n_dt()'],
+                  ensures=['final(element).elemname == old(element).elemname && final(element).elemtype == old(element).elemtype',
+                           'r is Ok ==> t_dt(old(element).elemtype.typ as int).mode == ContentMode::Mixed && position < old(element).content@.len() && old(element).content@[position as int] is CharacterData',
+                           'r is Ok ==> final(element).content@ == old(element).content@.remove(position as int)',
+                           'r is Err ==> final(element).content@ == old(element).content@'],
+                  proofs=[dict(at='body_start', text='proof { axiom_tables(); }')]),
            FnSpec('list_valid_sub_elements', F_E, impl=IMPL_E, ret='r', body_sub=R46, requires=['node_of(*self).elemtype.typ < n_dt()'],
                   ensures=['r@.len() == 0 || exists|ver: AutosarVersion| #[trigger] list_ok(r@, node_of(*self), ver)'],
                   loops={0: dict(invariant=['wf_tables()', 'it_inv(vx_it.type_id_stack@, vx_it.indices@)', 'etype == node_of(*self).elemtype', 'etype.typ < n_dt()',
